@@ -173,14 +173,14 @@ theorem opcodeLoop_indep (ctx : Ctx) (d : Bytes) (bcOff bcLen : Int) :
 theorem parseOpcodes_indep (ctx : Ctx) (d : Bytes) (r : FrbRec) (regs regs' : Regs) (bpc : Nat) (tell : Bool) :
     (parseOpcodes ctx d r regs bpc tell).map Prod.snd = (parseOpcodes ctx d r regs' bpc tell).map Prod.snd := by
   unfold parseOpcodes
-  have h := opcodeLoop_indep ctx d r.bcOff r.bcLen _ r.bcOff regs regs' { bpc := bpc, tell := tell } rfl
-  cases h1 : opcodeLoop ctx d r.bcOff r.bcLen r.bcOff regs { bpc := bpc, tell := tell } with
+  have h := opcodeLoop_indep ctx d r.bcOff r.bcLen _ r.bcOff regs regs' { bpc := bpc, tell := tell, gvars := r.globals } rfl
+  cases h1 : opcodeLoop ctx d r.bcOff r.bcLen r.bcOff regs { bpc := bpc, tell := tell, gvars := r.globals } with
   | error e1 =>
-    cases h2 : opcodeLoop ctx d r.bcOff r.bcLen r.bcOff regs' { bpc := bpc, tell := tell } with
+    cases h2 : opcodeLoop ctx d r.bcOff r.bcLen r.bcOff regs' { bpc := bpc, tell := tell, gvars := r.globals } with
     | error e2 => rw [h1, h2] at h; simp only [Except.map] at h; cases h; rfl
     | ok v2 => rw [h1, h2] at h; simp [Except.map] at h
   | ok v1 =>
-    cases h2 : opcodeLoop ctx d r.bcOff r.bcLen r.bcOff regs' { bpc := bpc, tell := tell } with
+    cases h2 : opcodeLoop ctx d r.bcOff r.bcLen r.bcOff regs' { bpc := bpc, tell := tell, gvars := r.globals } with
     | error e2 => rw [h1, h2] at h; simp [Except.map] at h
     | ok v2 =>
       rw [h1, h2] at h
@@ -258,18 +258,18 @@ theorem parseLscrWith_regs_irrelevant (codec : Codec) (regs regs' : Regs) (d : B
   | error e => rfl
   | ok c =>
     simp only [Bind.bind, Except.bind]
-    have h := parseFuncs_indep { names := names, constants := c.constants, localFuncs := c.lfn, props := c.props, params := [], localVars := [] }
+    have h := parseFuncs_indep { names := names, constants := c.constants, localFuncs := c.lfn, props := c.props, scriptGlobals := c.globs, params := [], localVars := [] }
       d c.h.frbN.toNat c.h.frbOff { bpc := c.bpc, tell := false, regs := regs, funcs := [] }
       { bpc := c.bpc, tell := false, regs := regs', funcs := [] } rfl
-    cases e1 : parseFuncs { names := names, constants := c.constants, localFuncs := c.lfn, props := c.props, params := [], localVars := [] }
+    cases e1 : parseFuncs { names := names, constants := c.constants, localFuncs := c.lfn, props := c.props, scriptGlobals := c.globs, params := [], localVars := [] }
       d c.h.frbN.toNat c.h.frbOff { bpc := c.bpc, tell := false, regs := regs, funcs := [] } with
     | error x =>
-      cases e2 : parseFuncs { names := names, constants := c.constants, localFuncs := c.lfn, props := c.props, params := [], localVars := [] }
+      cases e2 : parseFuncs { names := names, constants := c.constants, localFuncs := c.lfn, props := c.props, scriptGlobals := c.globs, params := [], localVars := [] }
         d c.h.frbN.toNat c.h.frbOff { bpc := c.bpc, tell := false, regs := regs', funcs := [] } with
       | error y => rw [e1, e2] at h; simp only [Except.map] at h ⊢; cases h; rfl
       | ok y => rw [e1, e2] at h; simp [Except.map] at h
     | ok x =>
-      cases e2 : parseFuncs { names := names, constants := c.constants, localFuncs := c.lfn, props := c.props, params := [], localVars := [] }
+      cases e2 : parseFuncs { names := names, constants := c.constants, localFuncs := c.lfn, props := c.props, scriptGlobals := c.globs, params := [], localVars := [] }
         d c.h.frbN.toNat c.h.frbOff { bpc := c.bpc, tell := false, regs := regs', funcs := [] } with
       | error y => rw [e1, e2] at h; simp [Except.map] at h
       | ok y =>
